@@ -122,6 +122,77 @@ func (g *commonGen) template(w *World, name string, b int) []Step {
 			out = append(out, Step{Kind: "logout", B: b}, Step{Kind: "otp_login", B: b, A: a, Sec: &SecretRef{Kind: "otp", A: a, Idx: -1}})
 		}
 		return out
+	case "otp_fill":
+		// log in and add one-time passwords up to and beyond the limit
+		out := []Step{{Kind: "login", B: b, A: a, Sec: pw(a)}}
+		for i := 0; i < 4+g.r.Intn(4); i++ {
+			out = append(out, Step{Kind: "otp_add", B: b, A: a})
+		}
+		return out
+	case "oauth_remember":
+		prov := c.Providers[g.r.Intn(len(c.Providers))]
+		uid := []string{"", "a;;b", "x;y", "7"}[g.r.Intn(4)]
+		cb := Step{Kind: "oauth2_callback", B: b, A: g.r.Intn(3), Str: map[string]string{"provider": prov, "code": "fresh"}}
+		if uid != "" {
+			cb.Str["uid"] = uid
+		}
+		cb.Sec = &SecretRef{Kind: "state", A: -1, Idx: -1}
+		return []Step{{Kind: "oauth2_start", B: b, RM: true, Str: map[string]string{"provider": prov}}, cb, {Kind: "drop_session", B: b}, g.fill(w, "probe", b),
+			{Kind: "drop_session", B: b}, g.fill(w, "probe", b)}
+	case "remember_then_reset":
+		ob := (b + 1) % len(w.Browsers)
+		out := []Step{{Kind: "login", B: b, A: a, Sec: pw(a), RM: true}, {Kind: "login", B: ob, A: a, Sec: pw(a), RM: true}}
+		if g.r.Bool() && c.hasModule("recover") {
+			out = append(out, Step{Kind: "recover_start", B: b, A: a}, Step{Kind: "recover_end", B: b, A: a, Sec: &SecretRef{Kind: "recover", A: a, Idx: -1}, Sec2: g.newPassword()})
+		} else {
+			out = append(out, Step{Kind: "op_update_password", B: b, A: a, Sec: g.newPassword()})
+		}
+		out = append(out, Step{Kind: "drop_session", B: ob}, g.fill(w, "probe", ob), Step{Kind: "drop_session", B: b}, g.fill(w, "probe", b),
+			Step{Kind: "login", B: ob, A: a, Sec: &SecretRef{Kind: "oldpassword", A: a, Idx: -1}}, Step{Kind: "login", B: ob, A: a, Sec: pw(a)})
+		return out
+	case "op_reset":
+		return []Step{{Kind: "op_update_password", B: b, A: a, Sec: g.newPassword()}, {Kind: "login", B: b, A: a, Sec: &SecretRef{Kind: "oldpassword", A: a, Idx: -1}},
+			{Kind: "login", B: b, A: a, Sec: pw(a)}}
+	case "confirm_flow":
+		out := []Step{{Kind: "op_start_confirm", B: b, A: a}}
+		if g.r.Chance(1, 3) {
+			out = append(out, Step{Kind: "op_start_confirm", B: b, A: a})
+		}
+		out = append(out, Step{Kind: "confirm", B: b, A: a, Sec: g.secretFor(w, "confirm", a, b)})
+		if g.r.Bool() {
+			out = append(out, Step{Kind: "confirm", B: b, A: a, Sec: &SecretRef{Kind: "confirm", A: a, Idx: -1}})
+		}
+		return out
+	case "token_near_miss":
+		// issue a token, submit several near misses, then the genuine one
+		kind, issue, use := "recover", "recover_start", "recover_end"
+		if g.r.Bool() {
+			kind, issue, use = "confirm", "op_start_confirm", "confirm"
+		}
+		out := []Step{{Kind: issue, B: b, A: a}}
+		n := 2 + g.r.Intn(5)
+		oa := g.otherAcct(w, a)
+		for i := 0; i < n; i++ {
+			muts := []string{fmt.Sprintf("flipbit:%d", g.r.Intn(512)), fmt.Sprintf("trunc:%d", g.r.Intn(64)), fmt.Sprintf("extend:%d", g.r.Intn(6)),
+				fmt.Sprintf("splice:%d", oa), fmt.Sprintf("splice2:%d", oa), "suffix:.", "suffix:,", "prefix: ", "upper", "stdalpha"}
+			st := Step{Kind: use, B: b, A: a, Sec: &SecretRef{Kind: kind, A: a, Idx: -1, Mut: muts[g.r.Intn(len(muts))]}}
+			if g.r.Chance(1, 5) {
+				st.Sec = &SecretRef{Kind: "stored", A: a, Lit: kind + []string{"_selector", "_verifier"}[g.r.Intn(2)]}
+			}
+			if use == "recover_end" {
+				st.Sec2 = g.newPassword()
+			}
+			out = append(out, st)
+		}
+		gen := Step{Kind: use, B: b, A: a, Sec: &SecretRef{Kind: kind, A: a, Idx: -1}}
+		if g.r.Chance(1, 4) {
+			gen.Sec.Mut = []string{"nopad", "crlf"}[g.r.Intn(2)]
+		}
+		if use == "recover_end" {
+			gen.Sec2 = &SecretRef{Kind: "literal", Lit: fmt.Sprintf("Fresh-Pass9!%d", g.r.Intn(100))}
+		}
+		out = append(out, gen)
+		return out
 	case "twofa_login":
 		// primary credential then the right second factor
 		out := []Step{{Kind: "login", B: b, A: a, Sec: pw(a)}}
